@@ -71,7 +71,8 @@ def limit_df(df, fs, start=None, stop=None, reset_indices=True):
         df['sample_' + center_e] = df['sample_' + center_e] - int(fs * start)
         df['sample_zerox_rise'] = df['sample_zerox_rise'] - int(fs * start)
         df['sample_zerox_decay'] = df['sample_zerox_decay'] - int(fs * start)
-        df['sample_last_zerox_decay'] = df['sample_last_zerox_decay'] - int(fs * start)
+        last_zerox = 'sample_last_zerox_decay' if center_e == 'peak' else 'sample_last_zerox_rise'
+        df[last_zerox] = df[last_zerox] - int(fs * start)
 
     return df
 
